@@ -194,7 +194,7 @@ func genCase(t *rapid.T, w weights, maxOps int, rel func(i, n int) int) Case {
 			op.NV = rapid.IntRange(0, 3).Draw(t, "nvs")
 		case "time":
 			// seconds, relative to the trusting period
-			op.D = rapid.SampledFrom([]int64{c.TP / 8, c.TP / 6, c.TP / 4, c.TP / 3, c.TP / 3, c.TP * 2 / 5, 30}).Draw(t, "d")
+			op.D = rapid.SampledFrom([]int64{c.TP / 8, c.TP / 4, c.TP / 3, c.TP / 3, c.TP * 2 / 5, c.TP / 2, 30}).Draw(t, "d")
 			afterTime = true
 		case "jump":
 			op.D = rapid.SampledFrom([]int64{-1, 0, 1, -1, 0, 1, -5e9, 2}).Draw(t, "d")
